@@ -404,6 +404,16 @@ Section Scan.
     Rel w P b1 -> Rel w (fun _ => False) b1.
   Proof. intros P d b1 HP Ha R. eapply Rel_weaken; [|exact R]. intros x Hx. left. apply Ha, HP, Hx. Qed.
 
+  (* a candidate that is a regular file on disk is a visible file, when its directory is not reserved *)
+  Lemma tracked_file_visible : forall a, isfile fs a = true -> in_counts b (dirname a) = false ->
+    (mem_path a (bd_maybe b) = true \/ mem_path a (bd_removed b) = true) -> visible w a = true.
+  Proof.
+    intros a Hf Hc Ht. unfold visible. fold fs. apply isfile_lookup in Hf. destruct Hf as [g Hg]. rewrite Hg.
+    destruct (hid w a) eqn:Hh; [|reflexivity]. exfalso.
+    assert (Hif: isfile (w_fs w) a = true) by (unfold isfile; fold fs; rewrite Hg; reflexivity).
+    apply (bi_rf_trk _ HB a a (bi_hid_rf _ HB _ Hif Hh Hc) Ht). apply suffix_refl.
+  Qed.
+
   Lemma scan_loop_sound : forall f,
     (forall (P : path -> Prop) b1 a, (forall x, P x -> psuffix x a) -> Rel w P b1 -> mem_path a (bd_maybe b1) = true ->
         in_counts b a = false -> List.length (bd_maybe b1) <= f ->
@@ -418,6 +428,8 @@ Section Scan.
     intros f IH P d HP Ht Hd.
     pose proof (bi_wf _ HB) as Hwf.
     destruct (trk_true_cases _ _ Ht) as [Hc Htm].
+    assert (Hnf: isfile (w_fs w) d = true -> False).
+    { intro H. unfold isfile in H. fold fs in H. rewrite Hd in H. discriminate. }
     assert (HP': forall x, P x \/ x = d -> suffix x d).
     { intros x [Hx | ->]; [apply psuffix_suffix, HP, Hx|apply suffix_refl]. }
     (* a visible entry: the directory is alive and handle_dir_exists is justified *)
@@ -427,7 +439,8 @@ Section Scan.
     { intros n b1 p Hv R Hp.
       assert (Hup: forall x, suffix x d -> dead w x = false).
       { intros x Hx. eapply visible_alive_up; [exact Hwf|exact Hv|apply suffix_cons; exact Hx]. }
-      cbn [scan_post]. split; [symmetry; apply Hup, suffix_refl|].
+      cbn [scan_post]. split; [intros _; symmetry; apply Hup, suffix_refl|].
+      split; [intros _; reflexivity|].
       split; [apply (hf_len _ _ _ (hde_frame_ok p b1))|].
       apply Rel_hde.
       - eapply alive_clears; [exact HP'|exact Hup|exact R].
@@ -439,8 +452,9 @@ Section Scan.
     - (* every entry is invisible: dead *)
       cbn [scan_loop]. fold (add_removed b1 d).
       assert (Hdead: dead w d = true) by (apply Hpre; intros n []).
-      cbn [scan_post]. split; [symmetry; exact Hdead|]. split; [cbn; lia|].
-      apply Rel_add_removed; assumption.
+      cbn [scan_post]. split; [intros _; symmetry; exact Hdead|]. split; [intro H; destruct (Hnf H)|].
+      split; [cbn; lia|].
+      apply Rel_add_removed; [exact R|exact Ht|intros _; exact Hdead].
     - cbn [scan_loop]. cbv zeta.
       assert (Hex: lexists fs (n :: d) = true) by (apply Hns; left; reflexivity).
       assert (Hca: in_counts b (n :: d) = false).
@@ -454,14 +468,18 @@ Section Scan.
         { apply IHns; [intros m Hm; apply Hns; right; exact Hm|exact R2|lia|].
           intro Hrest. apply Hpre. intros m [<-|Hm]; [exact Hi|apply Hrest; exact Hm]. }
         destruct (scan_loop (check_maybe f fs) fs d rest b2) as [b3 r|b3 e|]; cbn [scan_post] in *; [|exact G|exact G].
-        destruct G as (G1 & G2 & G3). split; [exact G1|]. split; [lia|exact G3]. }
+        destruct G as (G1 & G1' & G2 & G3). split; [exact G1|]. split; [exact G1'|]. split; [lia|exact G3]. }
       destruct (mem_path (n :: d) (bd_removed b1)) eqn:E1.
-      { (* known dead *)
-        destruct (rl_removed _ _ _ R _ E1) as [H|H]; [fold b in H; congruence|].
-        destruct (dead_true_inv _ _ H) as [_ Hnf]. fold fs in Hnf. rewrite Hnf.
-        apply Hnext; [|exact R|lia].
-        unfold invis, invis_gen. fold fs. unfold lexists in Hex. unfold isfile in Hnf.
-        destruct (lookup fs (n :: d)) as [[g|]|]; try discriminate. exact H. }
+      { destruct (isfile fs (n :: d)) eqn:Ef.
+        - (* a regular file where a candidate was: visible *)
+          apply (Halive n); [|exact R|left; reflexivity].
+          apply tracked_file_visible; [exact Ef|exact Hc|]. apply (rl_trk_sub _ _ _ R). right. exact E1.
+        - (* known dead *)
+          assert (Hi: isdir (w_fs w) (n :: d) = true).
+          { unfold isdir, isfile, lexists in *. fold fs. destruct (lookup fs (n :: d)) as [[g|]|]; try discriminate; reflexivity. }
+          destruct (rl_removed _ _ _ R _ E1 Hi) as [H|H]; [fold b in H; congruence|].
+          apply Hnext; [|exact R|lia].
+          unfold invis, invis_gen. fold fs. apply isdir_lookup in Hi. fold fs in Hi. rewrite Hi. exact H. }
       destruct (mem_path (n :: d) (bd_removed_files b1)) eqn:E2.
       { pose proof (rl_rf_sub _ _ _ R _ E2) as Hrf.
         destruct (isdir fs (n :: d)) eqn:Ei.
@@ -483,23 +501,21 @@ Section Scan.
         { apply IH; [|exact R|exact E3|exact Hca|exact Hlen].
           intros x Hx. apply psuffix_cons. apply HP'. exact Hx. }
         destruct (check_maybe f fs b1 (n :: d)) as [b2 r|b2 e|]; cbn [scan_post] in G.
-        - destruct G as (G1 & G2 & G3). destruct r.
-          + apply Hnext; [|exact G3|exact G2].
-            unfold invis, invis_gen. fold fs. symmetry in G1. destruct (dead_true_inv _ _ G1) as [_ Hnf].
-            unfold lexists in Hex. unfold isfile in Hnf. fold fs in Hnf.
-            destruct (lookup fs (n :: d)) as [[g|]|]; try discriminate. exact G1.
+        - destruct G as (G1 & G1' & G2 & G3).
+          assert (Hkind: isdir (w_fs w) (n :: d) = true \/ isfile (w_fs w) (n :: d) = true).
+          { unfold isdir, isfile, lexists in *. fold fs. destruct (lookup fs (n :: d)) as [[g|]|]; try discriminate; auto. }
+          destruct r.
+          + destruct Hkind as [Hi|Hi]; [|specialize (G1' Hi); discriminate].
+            apply Hnext; [|exact G3|exact G2].
+            unfold invis, invis_gen. pose proof Hi as Hi'. apply isdir_lookup in Hi'. rewrite Hi'.
+            symmetry. apply G1. exact Hi.
           + (* alive: then the entry is visible *)
             assert (Hv: visible w (n :: d) = true).
-            { unfold visible. fold fs. unfold lexists in Hex.
-              destruct (lookup fs (n :: d)) as [[g|]|] eqn:El; try discriminate.
-              - destruct (hid w (n :: d)) eqn:Hh; [|reflexivity]. exfalso.
-                assert (Hif: isfile (w_fs w) (n :: d) = true) by (unfold isfile; fold fs; rewrite El; reflexivity).
-                pose proof (bi_hid_rf _ HB _ Hif Hh Hc) as Hrf.
-                apply (bi_rf_trk _ HB _ (n :: d) Hrf); [|apply suffix_refl].
-                apply (rl_trk_sub _ _ _ R). left. exact E3.
-              - rewrite <- G1. reflexivity. }
-            cbn [scan_post]. split; [symmetry; eapply visible_parent_alive; eassumption|].
-            split; [exact G2|exact G3].
+            { destruct Hkind as [Hi|Hi].
+              - unfold visible. pose proof Hi as Hi'. apply isdir_lookup in Hi'. rewrite Hi'. rewrite <- (G1 Hi). reflexivity.
+              - apply tracked_file_visible; [exact Hi|exact Hc|]. apply (rl_trk_sub _ _ _ R). left. exact E3. }
+            cbn [scan_post]. split; [intros _; symmetry; eapply visible_parent_alive; eassumption|].
+            split; [intros _; reflexivity|]. split; [exact G2|exact G3].
         - exfalso. destruct G as (G1 & _). unfold lexists in Hex. fold fs in G1. rewrite G1 in Hex. discriminate.
         - contradiction. }
       (* neither a known-dead directory, nor a recorded output, nor a candidate: visible *)
@@ -538,16 +554,20 @@ Section Scan.
       { cbn. apply length_del_path_le. }
       assert (HP': forall x, P x \/ x = d -> suffix x d).
       { intros x [Hx | ->]; [apply psuffix_suffix, HP, Hx|apply suffix_refl]. }
-      unfold listdir. destruct (lookup fs d) as [[g|]|] eqn:El.
-      + (* a regular file: ENOTDIR *)
+      (* ENOTDIR: the candidate is, or hangs below, a regular file *)
+      assert (Hnotdir: notdir fs d ->
+                scan_post w P b1 d (ScanOk (handle_dir_exists (drop_maybe b1 d) (dirname d)) false)).
+      { intro Hn.
         assert (Hok: hde_ok w d).
-        { apply (notdir_ok w d HB); [apply (rl_trk_sub _ _ _ R); left; exact Hm|apply suffix_refl|].
-          left. unfold isfile. fold fs. rewrite El. reflexivity. }
-        cbn [scan_post]. split; [symmetry; apply dead_file; unfold isfile; fold fs; rewrite El; reflexivity|].
+        { apply (notdir_ok w d HB); [apply (rl_trk_sub _ _ _ R); left; exact Hm|apply suffix_refl|exact Hn]. }
+        cbn [scan_post]. split; [intros _; symmetry; apply (Hok d (suffix_refl d))|].
+        split; [intros _; reflexivity|].
         split; [pose proof (hf_len _ _ _ (hde_frame_ok (dirname d) (drop_maybe b1 d))); lia|].
         apply Rel_hde.
         * eapply alive_clears; [exact HP'|intros x Hx; apply (Hok x Hx)|exact R0].
-        * intros x Hx. apply Hok. destruct d as [|m d']; [exact Hx|apply suffix_cons; exact Hx].
+        * intros x Hx. apply Hok. destruct d as [|m d']; [exact Hx|apply suffix_cons; exact Hx]. }
+      unfold listdir. destruct (lookup fs d) as [[g|]|] eqn:El.
+      + apply Hnotdir. left. unfold isfile. rewrite El. reflexivity.
       + (* a directory: scan the entries *)
         assert (G: scan_post w P (drop_maybe b1 d) d (scan_loop (check_maybe f fs) fs d (children fs d) (drop_maybe b1 d))).
         { apply scan_loop_sound; try assumption.
@@ -556,35 +576,28 @@ Section Scan.
             apply forallb_forall. exact Hall. }
         destruct (scan_loop (check_maybe f fs) fs d (children fs d) (drop_maybe b1 d)) as [b2 r|b2 e|];
           cbn [scan_post] in *; [|exact G|exact G].
-        destruct G as (G1 & G2 & G3). split; [exact G1|]. split; [lia|exact G3].
+        destruct G as (G1 & G1' & G2 & G3). split; [exact G1|]. split; [exact G1'|]. split; [lia|exact G3].
       + unfold stat_err.
+        assert (Hnd: isdir (w_fs w) d = false) by (unfold isdir; fold fs; rewrite El; reflexivity).
+        assert (Hnf: isfile (w_fs w) d = false) by (unfold isfile; fold fs; rewrite El; reflexivity).
         assert (Hcases: forall e, absent_err fs d = e ->
                   scan_post w P b1 d (match e with
                      | ENOENT => ScanOk (add_removed (drop_maybe b1 d) d) true
                      | ENOTDIR => ScanOk (handle_dir_exists (drop_maybe b1 d) (dirname d)) false
                      | _ => ScanErr (drop_maybe b1 d) e end)).
         { intros e He.
-          assert (Hde: dead w d = oserr_eqb e ENOENT).
-          { rewrite dead_unfold. fold fs b. rewrite Ht, El, He. reflexivity. }
           assert (Herr: e <> ENOENT -> e <> ENOTDIR -> scan_post w P b1 d (ScanErr (drop_maybe b1 d) e)).
           { intros N1 N2. cbn [scan_post]. split; [exact El|]. split; [exact He|]. split; [exact N1|]. split; [exact N2|]. split.
             - eapply Rel_weaken; [|exact R0]. intros x [Hx | ->].
               + right. exact Hx.
-              + left. rewrite Hde. destruct e; try reflexivity. congruence.
-            - rewrite Hde. destruct e; try reflexivity. congruence. }
+              + left. apply dead_notdir. exact Hnd.
+            - apply dead_notdir. exact Hnd. }
           destruct e; try (apply Herr; discriminate).
-          - (* ENOENT: dead *)
-            cbn [scan_post]. split; [symmetry; exact Hde|]. split; [cbn in *; lia|].
-            apply Rel_add_removed; [exact R0|exact Hde].
+          - (* ENOENT: removed *)
+            cbn [scan_post]. split; [intro H; congruence|]. split; [intro H; congruence|]. split; [cbn in *; lia|].
+            apply Rel_add_removed; [exact R0|exact Ht|intro H; congruence].
           - (* ENOTDIR: below a regular file *)
-            assert (Hok: hde_ok w d).
-            { apply (notdir_ok w d HB); [apply (rl_trk_sub _ _ _ R); left; exact Hm|apply suffix_refl|].
-              right. fold fs. auto. }
-            cbn [scan_post]. split; [symmetry; exact Hde|].
-            split; [pose proof (hf_len _ _ _ (hde_frame_ok (dirname d) (drop_maybe b1 d))); lia|].
-            apply Rel_hde.
-            * eapply alive_clears; [exact HP'|intros x Hx; apply (Hok x Hx)|exact R0].
-            * intros x Hx. apply Hok. destruct d as [|m d']; [exact Hx|apply suffix_cons; exact Hx]. }
+            apply Hnotdir. right. auto. }
         specialize (Hcases _ eq_refl).
         destruct (absent_err fs d); exact Hcases.
   Qed.
@@ -592,7 +605,7 @@ Section Scan.
   (* -------------------------------------------------------------- is_removed *)
   Theorem is_removed_sound : forall d,
     match is_removed fs b d with
-    | ScanOk b' r => r = dead w d /\ good w (set_bd b' w)
+    | ScanOk b' r => (isdir fs d = true -> r = dead w d) /\ good w (set_bd b' w)
     | ScanErr b' e =>
         lookup fs d = None /\ absent_err fs d = EOTHER /\ e = EOTHER /\ path_ok d = false /\
         mem_path d (bd_maybe b) = true /\ good w (set_bd b' w)
@@ -603,16 +616,16 @@ Section Scan.
     assert (Hsame: good w (set_bd b w)).
     { apply Rel_final; [exact HB|apply Rel_refl; exact HB]. }
     destruct (in_counts b d) eqn:Ec.
-    { split; [symmetry; apply dead_counts; exact Ec|exact Hsame]. }
+    { split; [intros _; symmetry; apply dead_counts; exact Ec|exact Hsame]. }
     destruct (mem_path d (bd_removed b)) eqn:Er.
-    { split; [|exact Hsame]. destruct (bi_removed _ HB d Er) as [H|H]; [fold b in H; congruence|symmetry; exact H]. }
+    { split; [|exact Hsame]. intro Hi. destruct (bi_removed _ HB d Er Hi) as [H|H]; [fold b in H; congruence|symmetry; exact H]. }
     destruct (mem_path d (bd_maybe b)) eqn:Em; cbn [negb].
-    2:{ split; [|exact Hsame]. symmetry. apply dead_untracked. unfold trk. fold b. rewrite Em, Er. reflexivity. }
+    2:{ split; [|exact Hsame]. intros _. symmetry. apply dead_untracked. unfold trk. fold b. rewrite Em, Er. reflexivity. }
     pose proof (check_maybe_sound (S (List.length (bd_maybe b))) (fun _ => False) b d) as G.
     assert (G': scan_post w (fun _ => False) b d (check_maybe (S (List.length (bd_maybe b))) fs b d)).
     { apply G; [intros x []|apply Rel_refl; exact HB|exact Em|exact Ec|lia]. }
     destruct (check_maybe (S (List.length (bd_maybe b))) fs b d) as [b2 r|b2 e|]; cbn [scan_post] in G'.
-    - destruct G' as (G1 & _ & G3). split; [exact G1|].
+    - destruct G' as (G1 & _ & _ & G3). split; [exact G1|].
       apply Rel_final; [exact HB|]. destruct r; exact G3.
     - destruct G' as (G1 & G2 & G3 & G4 & G5 & _).
       assert (He: e = EOTHER).
@@ -633,12 +646,12 @@ Qed.
 (* the lifted routine of SimpleOps *)
 Theorem m_is_removed_sound : forall w d, BInv w ->
   exists w', good w w' /\
-    (m_is_removed d w = (w', inl (dead w d)) \/
+    ((exists r, m_is_removed d w = (w', inl r) /\ (isdir (w_fs w) d = true -> r = dead w d)) \/
      (m_is_removed d w = (w', inr (XOS XOSError)) /\ lookup (w_fs w) d = None /\ path_ok d = false)).
 Proof.
   intros w d HB. pose proof (is_removed_sound w HB d) as H. unfold m_is_removed.
   destruct (is_removed (w_fs w) (w_bd w) d) as [b' r|b' e|].
-  - destruct H as [H1 H2]. exists (set_bd b' w). split; [exact H2|]. left. rewrite H1. reflexivity.
+  - destruct H as [H1 H2]. exists (set_bd b' w). split; [exact H2|]. left. exists r. split; [reflexivity|exact H1].
   - destruct H as (H1 & H2 & H3 & H4 & H5 & H6). exists (set_bd b' w). split; [exact H6|]. right.
     subst e. auto.
   - contradiction.
